@@ -410,6 +410,18 @@ pub fn guard<T>(what: &str, f: impl FnOnce() -> T) -> Result<T, Failure> {
     }
 }
 
+/// A panic that escapes a check (i.e. not inside `guard`, so in harness code)
+/// is an infrastructure failure: exit 2, never a verdict.
+pub fn no_harness_panic<T>(f: impl FnOnce() -> T) -> T {
+    match std::panic::catch_unwind(std::panic::AssertUnwindSafe(f)) {
+        Ok(v) => v,
+        Err(_) => {
+            eprintln!("INFRASTRUCTURE: the harness itself panicked (see message above); no verdict");
+            std::process::exit(2);
+        }
+    }
+}
+
 /// file without line number: line numbers shift under unrelated edits, the
 /// file + operation is stable enough to key a root cause
 fn loc_file_only(loc: &str) -> String {
@@ -469,7 +481,7 @@ pub fn run_generated(
                         gen: gen.clone(),
                         bytes,
                     };
-                    let r = check(ctx, &input);
+                    let r = no_harness_panic(|| check(ctx, &input));
                     if counting.load(Ordering::Relaxed) {
                         // normal phase: record in stats
                         match &r {
@@ -499,7 +511,7 @@ pub fn run_generated(
                         bytes: minimal,
                     };
                     // re-judge the minimal input to obtain its failure detail
-                    match check(ctx, &input) {
+                    match no_harness_panic(|| check(ctx, &input)) {
                         Err(f) => {
                             ctx.stats.violations.lock().unwrap().push(Violation { input, failure: f });
                         }
@@ -530,7 +542,7 @@ pub fn run_inputs(
                 if i >= inputs.len() {
                     break;
                 }
-                let r = check(ctx, &inputs[i]);
+                let r = no_harness_panic(|| check(ctx, &inputs[i]));
                 ctx.judge(&inputs[i], r);
             });
         }
